@@ -193,9 +193,11 @@ func run() int {
 		for _, e := range ps.Entries {
 			fmt.Fprintf(&tsb, "func TestVerifEntry_%s(t *testing.T) { verifrt.RunNative(t, %q, %s) }\n", e.Func, e.Func, e.Func)
 		}
-		testFile := filepath.Join(outDir, fmt.Sprintf("zz_verif_%d_test.go", pi))
-		os.WriteFile(testFile, []byte(tsb.String()), 0o644)
-		testRepl[filepath.Join(pkgDirAbs, "zz_verif_"+strings.ToLower(spec.Property)+"_test.go")] = testFile
+		if len(ps.Entries) > 0 {
+			testFile := filepath.Join(outDir, fmt.Sprintf("zz_verif_%d_test.go", pi))
+			os.WriteFile(testFile, []byte(tsb.String()), 0o644)
+			testRepl[filepath.Join(pkgDirAbs, "zz_verif_"+strings.ToLower(spec.Property)+"_test.go")] = testFile
+		}
 		for _, e := range ps.Entries {
 			e.pkg = pi
 			if *flagEntry != "" && e.Func != *flagEntry {
@@ -664,7 +666,9 @@ var defaultNoop = []string{
 func runNative(spec *Spec, ovFile string, files []string) (string, error) {
 	args := []string{"test", "-vet=off", "-count=1", "-run", "^TestVerifEntry_", "-overlay", ovFile, "-timeout", "20m"}
 	for _, ps := range spec.Packages {
-		args = append(args, "./"+ps.PkgDir)
+		if len(ps.Entries) > 0 {
+			args = append(args, "./"+ps.PkgDir)
+		}
 	}
 	cmd := exec.Command("go", args...)
 	cmd.Dir = *flagRepo
